@@ -36,6 +36,10 @@ CHECKS = {
          "6", "exhaustive call-history exploration (explicit state = memory snapshot of the diff and documents) up to a depth bound"),
  "C16": ("every one-rune BMP string, astral samples, special two-rune strings, YAML-ambiguous words (alone and as key/value pairs), a number alphabet and U_4 in 9 embeddings: two independent YAML writers -> ReadYamlString versus ReadJsonString and the reference value; Yaml()/Json() read-back; CLI json2yaml|yaml2json on a subset",
          "6", "bounded-exhaustive enumeration of payload strings x embeddings with independent YAML writers as oracle"),
+ "C13": ("all strings up to length 5 (thorough 6) over a 15-symbol alphabet into the five readers; all native-format line sequences up to length 6 (7) with pruning; all JSON Patch programs of <= 2 ops over all RFC ops x 11 pointers x 3 values (3 ops reduced); every diff of the universes x 5 option sets with 1 (2) structural corruptions; each accepted diff rendered and applied to a target set; CLI error classes through both binaries and -v2=false: no panic, no hang, exit 2 with a one-line message",
+         "6", "bounded-exhaustive enumeration of texts / programs / deviation-bounded corruptions with crash (recover, process exit) oracle"),
+ "C14": ("every ordered pair of input files x the complete set of valid flag vectors x 3 binaries x {file, stdin}: exit status, stdout and -o file of the real process compared with an in-process contract model that calls the library; -p round trip for every diff-mode run; translate modes, git diff driver, invalid vectors",
+         "6 and Appendix B", "complete enumeration of the CLI configuration space (flag vectors x inputs x binaries) against a library-level contract model"),
 }
 NOT_YET = {}
 def main():
